@@ -9,7 +9,7 @@ five slice types; for every other type the Go `switch` falls through and the fun
 `(nil, nil)` — modelled as `none`.  Go errors / panics are explicit (`Except String`, the string is
 the canonical result class of the harness: `err:nocolumn`, `err:cast`, `panic:index`).
 -/
-namespace Mkts.Agg
+namespace Mkts.Uda
 open Mkts.Float
 
 inductive ColType where
@@ -194,4 +194,4 @@ def runGap (thrSec : Int) : List Batch → Except String (List (List (Int × Int
       | .error e => .error e
       | .ok os => .ok (o :: os)
 
-end Mkts.Agg
+end Mkts.Uda
